@@ -206,6 +206,7 @@ static void HandleEquate(const json& c, vh::Report& r) {
 
 static void Handle(const json& c, vh::Report& r) {
   if (c["mode"] == "synth") HandleSynth(c, r); else HandleEquate(c, r);
+  r.Count("mode." + c["mode"].get<std::string>() + (c["defined"].get<bool>() ? ".defined" : ".refused"));
   if (c["table"].size() + c["a"].size() >= 3) r.NonTrivial(c["a"].dump() + (c.contains("b") ? c["b"].dump() : std::string()) + c["table"].dump());
   if ((r.cases % 4973) == 11) r.Sample(c);
 }
